@@ -236,6 +236,9 @@ C03_SelValidated ==
      /\ k \in answered[a]
      /\ (cur[a].role = "controlling" => k \in ucAnswered[a])
      /\ (cur[a].role = "controlled" => k \in nomRx[a])
+\* the pair that becomes selected is, as the agent lists it, a pair whose own check has succeeded (not a copy of it that a
+\* supersession has dropped from the list)
+C03_SelectedIsValid == \A a \in Agents : (SelChanged(a) /\ Full(a) /\ ev.ev # "Reset") => PairOf(cur, a, cur[a].sel).st = "S"
 C03_LiteSelectsOnNomination ==
   \A a \in Agents : (SelChanged(a) /\ Lite[a] /\ cur[a].role = "controlled" /\ ev.ev # "Reset") =>
      (<<cur[a].gen>> \o SelKey(cur, a)) \in nomRx[a]
@@ -275,6 +278,8 @@ C06_NoDupPairs == \A a \in Agents : \A i, j \in 1..Len(cur[a].pairs) : i # j =>
 C06_PairsFromCurrent == \A a \in Agents : \A p \in Rng(cur[a].pairs) : p.l \in Rng(cur[a].locals) /\ Known(cur, a, p.r)
 \* "the selected pair is one of the listed pairs": by id, and it is the listed entry itself (not a superseded copy that kept the id)
 C06_SelListed == \A a \in Agents : cur[a].sel # 0 => (cur[a].selListed /\ \E p \in Rng(cur[a].pairs) : p.id = cur[a].sel)
+\* an id addresses the listed pair: the agent's id index leads to the checklist entry itself, not to a copy that a supersession left behind
+C06_IdAddresses == \A a \in Agents : \A p \in Rng(cur[a].pairs) : p.byId
 C06_IdStable == \A a \in Agents : \A x, y \in idmap[a] : (x[1] = y[1] /\ x[2] = y[2]) => x = y
 C06_RemotesDeduped == \A a \in Agents : \A i, j \in 1..Len(cur[a].remotes) : i # j =>
                          <<cur[a].remotes[i].addr, cur[a].remotes[i].typ>> # <<cur[a].remotes[j].addr, cur[a].remotes[j].typ>>
@@ -438,6 +443,7 @@ P(n) == CASE n = "C01_Mirror" -> C01_Mirror []
         n = "C03_NoUCFromControlled" -> C03_NoUCFromControlled []
         n = "C03_LiteNeverRequests" -> C03_LiteNeverRequests []
         n = "C03_NoDowngrade" -> C03_NoDowngrade []
+        n = "C06_IdAddresses" -> C06_IdAddresses [] n = "C03_SelectedIsValid" -> C03_SelectedIsValid []
         n = "C05_Rule" -> C05_Rule [] n = "C05_SwitchOnlyOnConflict" -> C05_SwitchOnlyOnConflict []
         n = "C05_OppositeAtEnd" -> C05_OppositeAtEnd []
         n = "C06_UniqueIds" -> C06_UniqueIds []
